@@ -179,7 +179,30 @@ func c05Edited(c *core.Ctx, va verifyAdapter, sc signedCase, r *core.Rand) {
 // c05Check applies the oracle to one (possibly adversarial) input.
 func c05Check(c *core.Ctx, va verifyAdapter, in []byte, sh gen.Shape, derivation string) (libOK bool) {
 	var parsed, verified bool
-	panicked, _, _ := c.Call(va.site, in, func() { parsed, verified, _ = va.lib(in) })
+	// for one input in four (chosen by its content, so that a case replays identically) the value is
+	// QUERIED between parsing and verifying - every argument-free accessor, as a consumer that looks
+	// at leases, expirations and options before it checks the signature would: what is verified is
+	// still the bytes the value was read from
+	queried := false
+	if hold := holdAdapters[va.kind]; hold != nil && len(in) > 8 && (in[len(in)/2]^in[len(in)-1]^in[7])&3 == 1 {
+		queried = true
+	}
+	panicked, _, _ := c.Call(va.site, in, func() {
+		if !queried {
+			parsed, verified, _ = va.lib(in)
+			return
+		}
+		hv, ok := holdAdapters[va.kind](in)
+		if !ok {
+			return
+		}
+		parsed = true
+		lib.Observe(hv.val, lib.ObserveOpts{Depth: 1})
+		verified = hv.verify()
+	})
+	if queried {
+		derivation += "+queried-before-verification"
+	}
 	c.Eval(1)
 	if panicked {
 		return false
